@@ -176,12 +176,10 @@ Definition C05_model_disciplined_full : Prop :=
   forall orcs min_len ops, forallb crash_op ops = true ->
     snd (mon_run mon_init (trace_of_o orcs min_len ops)) = true.
 
-(* PARTIAL: proved for the histories in which every operation is one of create_region_if_needed,
-   truncate, rename, remove_region, drop of a handle, set_min_len, Database::flush (every
-   outcome), or a refused write / retain_regions / Region::flush / compact (`covered_run`,
-   Rawdb/AllocDisciplinedAll.v).  Missing: the successful paths of the write family,
-   retain_regions, Region::flush and compact (the generic lemmas ms_sound / MS_slot_update /
-   cpl_after_sync they need are proved; their instantiation is not). *)
+(* the step lemma (monitor accepts the events of one operation and the coupling invariant between
+   allocator state and monitor state is re-established) is proved for every crash operation in
+   every outcome: `covered_run` holds for every history of crash operations
+   (Rawdb/AllocDisciplinedAll.v, covered_of_crash_ops); the _partial forms are kept *)
 Theorem C05_model_disciplined_partial :
   forall orcs min_len ops, covered_run (init min_len) ops ->
     snd (mon_run mon_init (trace_of_o orcs min_len ops)) = true.
@@ -207,3 +205,28 @@ Print Assumptions C05_all_histories_partial.
 Theorem C05_model_disciplined_example : covered_run (init 0) ex_history.
 Proof. exact ex_history_covered. Qed.
 Print Assumptions C05_model_disciplined_example.
+
+(* the FULL statements *)
+Theorem C05_model_disciplined : C05_model_disciplined_full.
+Proof. exact C05_model_disciplined_proof. Qed.
+Print Assumptions C05_model_disciplined.
+
+(* every history of the model, every crash point, every choice of page versions *)
+Theorem C05_all_histories :
+  forall orcs min_len ops, forallb crash_op ops = true ->
+  forall t1 t2, trace_of_o orcs min_len ops = t1 ++ t2 ->
+    let m := fst (mon_run mon_init t1) in
+    forall sigma img, os_slots m sigma -> os_data m img ->
+      pairwise_disjoint (recovered m sigma) /\ inside_file m (recovered m sigma)
+      /\ match m_flushed m with
+         | Some (fl, fmem) =>
+             forall i w, assoc_get i fl = Some w -> mem_in (sr_id w) (m_touched m) = false ->
+               sigma i = Some w /\ forall a, sr_start w <= a < sr_start w + sr_len w -> img a = fmem a
+         | None => True
+         end.
+Proof. exact C05_all_histories_proof. Qed.
+Print Assumptions C05_all_histories.
+
+Theorem C05_model_disciplined_example_crash_ops : forallb crash_op ex_history = true.
+Proof. exact ex_history_crash_ops. Qed.
+Print Assumptions C05_model_disciplined_example_crash_ops.
